@@ -16,6 +16,7 @@ from props import c19
 TORN_CLASSES = ["zero", "one", "third", "half", "last", "complete"]
 CFG = {"replayIsComplete": True, "atomicWrite": False, "loadIsPerEntry": True, "replayOrderPreserved": True, "loadReadsCommitted": True,
        "saveOnEveryEnding": True, "savedEqualsLive": True}
+NOT_INTERCEPTED = []                                      # torn variants whose state write the hooks did not reach (run tag, op index)
 FL_MISMATCH = []                                          # (run tag, op index, text): state file vs live session after a stepping request     # probed per run (see probe)
 ROWS = {}                                                 # wave 7: counts per row of the coverage table (notes/C20-report.md)
 UNUSABLE_OK = [False]                                     # probed: a state file that parses but is not a session state is skipped at load
@@ -42,9 +43,12 @@ def cut_length(content, cls):
 
 
 class WriteCrash:
-    """Harness-side hook: the adapter module's `open` is shadowed so that the next write of a state file stops after a
-    prefix of the content (class `cls`) has reached the disk, and the process "dies" there (ProcessDied unwinds the
-    request; the server object is discarded by the caller)."""
+    """Harness-side hook: the next write of a state file stops after a prefix of the content (class `cls`) has reached the disk,
+    and the process "dies" there (ProcessDied unwinds the request; the server object is discarded by the caller).  Two ways in,
+    whichever the adapter uses: its module-level `open` is shadowed (a file opened for writing dies inside `write`), and its `os` is
+    replaced by a proxy whose `replace` / `rename` onto a `.json` file cuts the source file to the prefix and dies before the
+    rename (a writer that goes through tempfile / os.fdopen never calls the module's `open`; the disk state is the same: a torn or
+    complete temporary file next to the untouched state file).  `fired` tells whether either was reached."""
     def __init__(self, cls):
         self.cls, self.fired = cls, False
     def __enter__(self):
@@ -53,7 +57,7 @@ class WriteCrash:
         hook = self
         def fake_open(file, mode="r", *a, **k):
             f = builtins.open(file, mode, *a, **k)
-            if "w" not in mode:
+            if "w" not in mode or hook.fired:
                 return f
             class W:
                 def write(self, text):
@@ -66,16 +70,35 @@ class WriteCrash:
                 def __enter__(self): return self
                 def __exit__(self, *a): f.close(); return False
             return W()
+        class OsProxy:
+            def __getattr__(self, name):
+                return getattr(os, name)
+            def _die(self, src, dst):
+                if str(dst).endswith(".json") and not hook.fired:
+                    content = builtins.open(src).read()
+                    with builtins.open(src, "w") as g:
+                        g.write(content[:cut_length(content, hook.cls)])
+                    hook.fired = True
+                    raise ProcessDied()
+            def replace(self, src, dst, *a, **k):
+                self._die(src, dst); return os.replace(src, dst, *a, **k)
+            def rename(self, src, dst, *a, **k):
+                self._die(src, dst); return os.rename(src, dst, *a, **k)
+        self.had_os = "os" in esa.__dict__
         esa.open = fake_open
+        esa.os = OsProxy()
         return self
     def __exit__(self, *a):
         import BPTK_Py.externalstateadapter.externalStateAdapter as esa
         if "open" in esa.__dict__:
             del esa.open
+        if self.had_os:
+            esa.os = os
+        elif "os" in esa.__dict__:
+            del esa.os
         return False
 
 
-# ------------------------------------------------------------------ running a history on the real server
 def settings_of(st):
     return None if st["k"] == "nobody" else st.get("settings", {})
 
@@ -228,15 +251,18 @@ class Run:
             if state.get(fld) != live.get(fld):
                 return f"{fld}: file {state.get(fld)!r}, live {live.get(fld)!r}"
         canon = lambda v: json.loads(json.dumps(v))
+        order = None
         for fld in ("settings_log", "results_log"):
             f_ = {c19.tkey(k): canon(v) for k, v in state[fld].items()}
             l_ = {c19.tkey(k): canon(v) for k, v in live[fld].items()}
-            if list(f_) != list(l_):
+            if sorted(f_) != sorted(l_):
                 return f"{fld}: steps in the file {list(f_)}, live {list(l_)}"
+            if list(f_) != list(l_):                      # same entries, other dictionary order: not a failing input by itself
+                order = f"ORDER-ONLY {fld}: steps in the file {list(f_)}, live {list(l_)} (same entries)"
             for k in l_:
                 if c19.canon_settings(f_[k]) != c19.canon_settings(l_[k]):
                     return f"{fld}[{k}]: file {f_[k]}, live {l_[k]}"
-        return None
+        return order
 
     def stream(self, iid, st):
         """stream-steps: runs to the stop time (`close` None), or the client reads `close` results and hangs up (the response is
@@ -289,8 +315,8 @@ class Run:
 
     def tmp_state(self, mid):
         iid = self.ids.get(mid)
-        fn = os.path.join(self.path, (iid or "?") + ".json.tmp")
-        return "none" if not os.path.exists(fn) else "empty" if os.path.getsize(fn) == 0 else "nonempty"
+        others = [fn for fn in os.listdir(self.path) if fn.startswith(iid or "?") and not fn.endswith(".json")]   # whatever the temporary file is called
+        return "none" if not others else "empty" if all(os.path.getsize(os.path.join(self.path, fn)) == 0 for fn in others) else "nonempty"
 
     def evict(self):
         """every instance leaves the memory of the running server (as a timeout does): the next request loads it lazily"""
@@ -329,7 +355,23 @@ def slow_open(file, mode="r", *a, **k):            # harness-side hook: a write 
         def __enter__(self): return self
         def __exit__(self, *a): f.close(); return False
     return W()
+class OsProxy:                                      # same for a writer that goes through tempfile / os.fdopen and renames
+    def __getattr__(self, name):
+        return getattr(os, name)
+    def _die(self, src, dst):
+        if str(dst).endswith(".json") and os.path.exists(arm):
+            cls = builtins.open(arm).read().strip()
+            content = builtins.open(src).read()
+            with builtins.open(src, "w") as g:
+                g.write(content[:cut_length(content, cls)]); g.flush(); os.fsync(g.fileno())
+            builtins.open(marker, "w").close()
+            time.sleep(300)
+    def replace(self, src, dst, *a, **k):
+        self._die(src, dst); return os.replace(src, dst, *a, **k)
+    def rename(self, src, dst, *a, **k):
+        self._die(src, dst); return os.rename(src, dst, *a, **k)
 esa.open = slow_open
+esa.os = OsProxy()
 from BPTK_Py import FileAdapter
 from BPTK_Py.server import BptkServer
 import contextlib, io
@@ -485,6 +527,8 @@ def run_ops(hist, ops, base, tag, runner=None):
                     run.crash(); out.append(("none", None))
                 elif op[0] == "torn":
                     fired = run.torn_step(op[1], op[2], op[3])
+                    if not fired and run.srv is not None and run.ids.get(op[1]) in getattr(getattr(run.srv, "app", None), "_instance_manager", type("x", (), {"_instances": {}}))._instances:
+                        NOT_INTERCEPTED.append((tag, len(out)))          # the request ran to its end: the write was not where the hooks are
                     if fired:
                         TMP_STATS[op[3] + ":tmp=" + run.tmp_state(op[1])] = TMP_STATS.get(op[3] + ":tmp=" + run.tmp_state(op[1]), 0) + 1
                     run.crash(); out.append(("none", None))
@@ -655,7 +699,13 @@ def present(body):
 
 def check_variant(hist, name, ops, un_by_step, base, model_out, runner=None):
     """-> list of (key, text).  un_by_step: answers of the uninterrupted run per (mid, n-th step of mid)."""
+    del NOT_INTERCEPTED[:]
     got, files, ctor = run_ops(hist, ops, base, "c", runner)
+    if NOT_INTERCEPTED:
+        # not a statement about the code: this variant could not be run (reported without an input, key `correspondence…`)
+        del NOT_INTERCEPTED[:]
+        return [("correspondence-write-not-intercepted", f"{name}: the state write of the stepping request was not reached by the harness hooks "
+                 "(module-level open / os.replace / os.rename of the adapter): crash-in-write variants cannot be run on this tree")]
     viol = []
     counters, lost, externalised = {}, set(), set()
     exp_lines, real_lines = [], []
@@ -665,7 +715,9 @@ def check_variant(hist, name, ops, un_by_step, base, model_out, runner=None):
     sess_of = {}
     tag_fl = [x for x in FL_MISMATCH if x[0] == "c"]
     del FL_MISMATCH[:]
-    fl_v = [("saved-differs-from-live", f"{name}: after op {tag_fl[0][1]} {ops[tag_fl[0][1]][:2]} the state file does not hold the live session: {tag_fl[0][2]}")] if tag_fl else []
+    tag_fl.sort(key=lambda x: x[2].startswith("ORDER-ONLY"))
+    fl_v = [("correspondence-log-order" if tag_fl[0][2].startswith("ORDER-ONLY") else "saved-differs-from-live",
+             f"{name}: after op {tag_fl[0][1]} {ops[tag_fl[0][1]][:2]} the state file does not hold the live session: {tag_fl[0][2]}")] if tag_fl else []
     for oi, op in enumerate(ops):
         if op[0] == "rebegin":
             sess_of[op[1]] = op[2]
@@ -751,8 +803,9 @@ def run_history(hist, base, only=None, runner=None, pick=None):
     del FL_MISMATCH[:]
     un, _, _ = run_ops(hist, ops, base, "u")
     un_by_step, counters = {}, {}
-    viol = [("saved-differs-from-live", f"uninterrupted run: after op {oi} {ops[oi][:2]} the state file does not hold the live session: {t}", "uninterrupted")
-            for tg, oi, t in FL_MISMATCH if tg == "u"][:1]
+    viol = [("correspondence-log-order" if t.startswith("ORDER-ONLY") else "saved-differs-from-live",
+             f"uninterrupted run: after op {oi} {ops[oi][:2]} the state file does not hold the live session: {t}", "uninterrupted")
+            for tg, oi, t in sorted(FL_MISMATCH, key=lambda x: x[2].startswith("ORDER-ONLY")) if tg == "u"][:1]
     del FL_MISMATCH[:]
     for op, (kind, body) in zip(ops, un):
         if op[0] == "step":
@@ -760,7 +813,7 @@ def run_history(hist, base, only=None, runner=None, pick=None):
             un_by_step[(op[1], n)] = (kind, body)
             if kind.startswith("http-"):
                 viol.append((f"run-step-{kind}", f"uninterrupted run: {body}", "uninterrupted"))
-    if any(k != "saved-differs-from-live" for k, _, _ in viol):
+    if any(k not in ("saved-differs-from-live", "correspondence-log-order") for k, _, _ in viol):
         return 0, viol
     if only is not None:
         vs = [v for v in vs if v[0] == only]
@@ -1010,7 +1063,7 @@ def probe(base):
     facts["loadReadsCommitted"] = probe_tmp(base)
     facts["saveOnEveryEnding"] = probe_endings(base)
     _, v = run_history(SESSIONS_WITNESS, base, only="none")
-    facts["savedEqualsLive"] = not any(k == "saved-differs-from-live" for k, _, _ in v)
+    facts["savedEqualsLive"] = not any(k == "saved-differs-from-live" for k, _, _ in v)          # (an order-only difference is not one)
     facts["loadSkipsUnusableStates"] = probe_unusable(base)
     UNUSABLE_OK[0] = facts["loadSkipsUnusableStates"]
     for k in CFG:
